@@ -349,6 +349,12 @@ func VerifyPKCS1v15(pub *PublicKey, hash crypto.Hash, hashed []byte, sig []byte)
 	// 	return boring.VerifyRSAPKCS1v15(bkey, hash, hashed, sig)
 	// }
 
+	// ZCrypto - reject a missing modulus and a missing or non-positive
+	// exponent before pub.Size() and encrypt dereference them.
+	if err := checkPub(pub); err != nil {
+		return err
+	}
+
 	// RFC 8017 Section 8.2.2: If the length of the signature S is not k
 	// octets (where k is the length in octets of the RSA modulus n), output
 	// "invalid signature" and stop.
